@@ -51,6 +51,18 @@ def expr(e, env):
         return ("bool", type(e.op).__name__, tuple(E(v) for v in e.values))
     if isinstance(e, ast.ListComp):
         return ("comp", ast.unparse(e))
+    if isinstance(e, ast.Dict):
+        return ("dict", tuple((E(k) if k is not None else ("star2",), E(v)) for k, v in zip(e.keys, e.values)))
+    if isinstance(e, ast.Set):
+        return ("set", tuple(E(x) for x in e.elts))
+    if isinstance(e, ast.JoinedStr):
+        parts = []
+        for v in e.values:
+            if isinstance(v, ast.Constant):
+                parts.append(("const", v.value))
+            elif isinstance(v, ast.FormattedValue):
+                parts.append(("fmt", E(v.value), v.conversion, ast.unparse(v.format_spec) if v.format_spec is not None else None))
+        return ("fstr", tuple(parts))
     if isinstance(e, ast.Yield):
         return ("yield", E(e.value) if e.value is not None else ("const", None))
     if isinstance(e, ast.IfExp):
@@ -147,6 +159,10 @@ def mentions(t, name):
 def show(t):
     if not isinstance(t, tuple):
         return repr(t)
+    if not t:
+        return "()"
+    if not isinstance(t[0], str):
+        return "(" + ", ".join(show(x) for x in t) + ")"
     tag = t[0]
     if tag == "var":
         return t[1]
